@@ -22,7 +22,7 @@ func init() {
 }
 
 func checkC23(r *ev.Run) {
-	nScripts := r.N(8, 250)
+	nScripts := r.N(16, 250)
 	perScript := r.N(90, 160)
 	r.Rule(mxRule + "Focus: edit-stake of custodial / non-custodial / plain nodes and of applications with amounts below / equal / same-bin / above the current stake and above the weighting ceiling, changed chains, URL, output address and reward delegators, signed by operator, current output address or a stranger; begin-unstake messages put nodes into the waiting set; half of the scripts delay the output-address-edit feature to height 30 and reward delegators to height 45 (transition profile). Oracle on the node/application record before and after every DeliverTx: tokens never lower; public key, jailed flag, status unchanged; output address changes only if the previous output address signed and the feature is active (or no output address was set); delegators change only if the operator signed and the feature is active; a node in the waiting set is never modified; a rejected edit leaves the record untouched. Non-trivial = distinct (target kind, signer relation, changed-field set, outcome).")
 	ev.ForEach(nScripts, workers(), func(si int) {
@@ -201,7 +201,7 @@ func refMaxRelays(s *chain.Snapshot, stake *big.Int) (*big.Int, bool) {
 }
 
 func checkC28(r *ev.Run) {
-	nScripts := r.N(8, 250)
+	nScripts := r.N(16, 250)
 	perScript := r.N(90, 160)
 	r.Rule(mxRule + "Focus: application stake / edit / begin-unstake / transfer with MaxApplications = 7 against 4 genesis apps and 6 funded candidates (so the limit is hit), stakes 1-31 POKT around the 1 POKT minimum, 1-2 chains, candidates holding 40 POKT (so large stakes cannot be covered), transfers to fresh keys by current applications and by non-applications, MaxApplications changed by governance. Oracle per DeliverTx: an application that becomes staked must have had, in the observed pre-state: stake >= minimum, chains <= maximum, balance >= stake + fee, staked-application count < MaxApplications; its record must be Staked with tokens == stake and MaxRelays == floor(BaseRelaysPerPOKT/100 * stake/1e6 + StabilityAdjustment) computed from the stored params; an accepted transfer must come from a staked application, create the new record with the same tokens / chains / MaxRelays / status, delete the old record and leave the application pool unchanged. Non-trivial = distinct (kind, relation, outcome, limit reached?).")
 	ev.ForEach(nScripts, workers(), func(si int) {
